@@ -28,6 +28,7 @@ GenStep ==
   \/ \E n \in 1..MaxNum, f \in FlagSets : Fetch(n, f) /\ Log("Fetch", f, None, n, 0)
   \/ \E m \in Mailboxes, n \in 0..MaxNum : Status(m, n) /\ Log("Status", m, None, n, 0)
   \/ \E m \in Mailboxes : List(m) /\ Log("List", m, None, 0, 0)
+  \/ \E i \in 1..MaxCmds, n \in 1..MaxNum : Esearch(i, n) /\ Log("Esearch", None, None, n, i)
   \/ Closed /\ Log("Closed", None, None, 0, 0)
   \/ \E i \in 1..MaxCmds, st \in {"OK", "NO", "BAD"} : Tagged(i, st) /\ Log("Tagged", st, None, i, 0)
   \/ Bye /\ Log("Bye", None, None, 0, 0)
